@@ -82,13 +82,13 @@ func RegisterGates() error {
 		// x (second input ignored)
 		reg("c19_first", func(x ...fr.Element) fr.Element {
 			return x[0]
-		}, 2, gkr.WithDegree(1), gkr.WithUnverifiedSolvableVar(0))
+		}, 2, gkr.WithDegree(1), gkr.WithSolvableVar(0))
 		// x^2 * y
 		reg("c19_x2y", func(x ...fr.Element) (r fr.Element) {
 			r.Square(&x[0])
 			r.Mul(&r, &x[1])
 			return
-		}, 2, gkr.WithDegree(3), gkr.WithSolvableVar(1))
+		}, 2, gkr.WithDegree(3), gkr.WithNoSolvableVar())
 	})
 	return gatesErr
 }
@@ -176,6 +176,7 @@ type Trace struct {
 	SolveCalls   int
 	ProveCalls   int
 	SolveIns     []*big.Int
+	UsedIns      []*big.Int // what the native solver was actually run on
 	GenuineOuts  []*big.Int
 	GivenOuts    []*big.Int
 	GenuineProof []*big.Int // nil when the genuine prover was not run or failed
@@ -212,6 +213,7 @@ func Options(info constraint.GkrInfo, h *Hooks, tr *Trace) []solver.Option {
 			h.MutateIns(use)
 		}
 		liedIns = use
+		tr.UsedIns = clone(use)
 		if err := cs.GkrSolveHint(info, &data)(m, use, outs); err != nil {
 			return err
 		}
